@@ -219,7 +219,9 @@ def check_extremes(s):
         if ill: continue                                  # may belong to the ill-conditioned coordinate
         fails.append(f'reported extreme {t!r} is not a sign change of x\' or y\' (exact sign changes: {[float(r) for r, _ in refs]})')
     for r, k in refs:
-        if not (lo + tol <= r <= hi - tol): continue      # on the rim of the window: either answer is within tolerance
+        exact_rim = (r == lo or r == hi) and all(float(p[k]).is_integer() and abs(p[k]) < 1e6 for p in pts(s))
+        if not (lo + tol <= r <= hi - tol) and not exact_rim: continue      # on the rim of the window: either answer is within tolerance --
+        # except when the root is EXACTLY 1/100 or 99/100 on small-integer control values: the window is closed, it must be reported
         if not any(abs(Fr(t) - r) <= tol for t in ex):
             fails.append(f'{"xy"[k]}\' changes sign at t={float(r)!r} inside [0.01, 0.99] but the extremes list is {ex!r}')
     return fails, info
@@ -367,6 +369,11 @@ def search(ctx):
             oth = [rng.randint(-300, 300) for _ in range(4)]
             k = rng.randrange(2)
             s = CubicBezier(*[P(float(v), float(o)) if k == 0 else P(float(o), float(v)) for v, o in zip(vals, oth)]); sh = 'double-exact'; fam = 'int'
+        if rng.random() < 0.06:
+            # quadratic whose x-extreme is at exactly t = 1/100 or 99/100: control values (0,-1,98) / (0,-99,-98), scaled by an integer
+            k = rng.randint(1, 5) * rng.choice([-1, 1]); xs = rng.choice([(0, -1, 98), (0, -99, -98), (98, -1, 0), (-98, -99, 0)])
+            oth = [rng.randint(-300, 300) for _ in range(3)]; kk = rng.randrange(2)
+            s = QuadraticBezier(*[P(float(k * v), float(o)) if kk == 0 else P(float(o), float(k * v)) for v, o in zip(xs, oth)]); sh = 'extreme-on-window-rim'; fam = 'int'
         ev += 1
         dist[f'segment/{fam}/{sh}'] = dist.get(f'segment/{fam}/{sh}', 0) + 1
         if len(s.points) > 2 and gen.nondegenerate(s): seen.add(gen.seg_key(s))
